@@ -188,7 +188,7 @@ func cmdHist(o *Out, line string, f []string) {
 		}
 		got := append(append([]string{}, wdocs...), rdocs...)
 		want := accepted
-		if ctor == "base" || ctor == "batch" || ctor == "streaming" {
+		if cb := strings.TrimPrefix(ctor, "sample0-"); cb == "base" || cb == "batch" || cb == "streaming" {
 			// collectors that are not schema-aware only promise never to store a document in a chunk whose
 			// metric count or value types differ from its own: compare types and values, not names
 			got, want = leafSigs(got), leafSigs(accepted)
@@ -435,7 +435,7 @@ func cmdHist(o *Out, line string, f []string) {
 	}
 	sizes, keys := chunkSizesOf(all)
 	limit := n
-	if ctor == "base" {
+	if strings.TrimPrefix(ctor, "sample0-") == "base" {
 		limit = n + 1
 	}
 	for i, s := range sizes {
@@ -576,6 +576,12 @@ func streamHist(o *Out, rng *rand.Rand, thorough bool, _ []string) {
 					run(o, fmt.Sprintf("hist %s %d - | %s | %s", ctor, n, strings.Join(pool, " "), strings.Join(prefix, " ")))
 				}
 			}
+			// the same histories through the time-sampling wrapper with a zero interval (transparent)
+			for _, ctor := range []string{"sample0-base", "sample0-batch", "sample0-streaming"} {
+				if len(prefix) <= 3 {
+					run(o, fmt.Sprintf("hist %s 2 - | %s | %s", ctor, strings.Join(pool, " "), strings.Join(prefix, " ")))
+				}
+			}
 		}
 		if len(prefix) == maxLen {
 			return
@@ -585,6 +591,31 @@ func streamHist(o *Out, rng *rand.Rand, thorough bool, _ []string) {
 		}
 	}
 	rec(nil)
+	// two schemas with the same depth-first list of leaf names and types that differ only in where a sub-document ends
+	// ({a:{b,c}} / {a:{b},c}): the schema-aware collectors must tell them apart, the decoded samples are the accepted ones
+	{
+		nestA := []*Node{sub("a", i64n("b", 1), i64n("c", 2))}
+		nestB := []*Node{sub("a", i64n("b", 3)), i64n("c", 4)}
+		nestC := []*Node{sub("a", i64n("b", 5), i64n("c", 6))}
+		npool := []string{hx(docBytes(nestA)), hx(docBytes(nestB)), hx(docBytes(nestC))}
+		var nrec func(prefix []string)
+		nrec = func(prefix []string) {
+			if len(prefix) >= 2 {
+				for _, ctor := range []string{"dynamic", "streamingDynamic", "writer", "sample0-dynamic"} {
+					for _, n := range []int{1, 2, 3} {
+						run(o, fmt.Sprintf("hist %s %d - | %s | %s", ctor, n, strings.Join(npool, " "), strings.Join(prefix, " ")))
+					}
+				}
+			}
+			if len(prefix) == 3 {
+				return
+			}
+			for _, a := range []string{"a0", "a1", "a2"} {
+				nrec(append(append([]string{}, prefix...), a))
+			}
+		}
+		nrec(nil)
+	}
 	// random long histories
 	nr := 300
 	if thorough {
@@ -616,7 +647,7 @@ func streamHist(o *Out, rng *rand.Rand, thorough bool, _ []string) {
 				ops = append(ops, "i")
 			}
 		}
-		ctor := append(cts, "writer")[rng.Intn(6)]
+		ctor := append(append([]string{}, cts...), "writer", "sample0-base", "sample0-dynamic", "sample0-streamingDynamic")[rng.Intn(9)]
 		run(o, fmt.Sprintf("hist %s %d - | %s | %s", ctor, 1+rng.Intn(7), strings.Join(p, " "), strings.Join(ops, " ")))
 	}
 }
